@@ -98,6 +98,17 @@ function* arraysOver(atoms, maxLen) {
   }
 }
 
+// cyclic values: not part of the pool (the reference and most monitors walk values); C03 and C12 add them to ask only
+// "does the entry point throw / are the errors well-formed"
+const Cyc = (src) => ({ ...Raw(src), cyclic: true });
+export const CYCLIC = [
+  Cyc('(() => { const o = { a: "x" }; o.self = o; return o; })()'),
+  Cyc("(() => { const o = { b: 1 }; o.a = o; return o; })()"),
+  Cyc("(() => { const a = [1]; a.push(a); return a; })()"),
+  Cyc('(() => { const o = { a: "x" }; o.self = o; return { a: o, b: [o] }; })()'),
+  Cyc('(() => { const o = { a: "x" }; o.self = o; return new Map([[o, 1]]); })()'),
+];
+
 let POOL = null;
 export function pool() {
   if (POOL) return POOL;
@@ -138,6 +149,7 @@ export function pool() {
   out.push(Obj([["a", A('"constructor"')]]));
   out.push(Obj([["a", A('"toString"')], ["b", A("1")]]));
   out.push(Obj([["valueOf", A('"a"')], ["a", A('"a"')]]));
+  out.push(Raw("(() => { const o = { a: 1 }; return { a: o, b: o }; })()")); // shared, not cyclic
   // typed arrays, all classes
   for (const t of TYPED_ARRAYS) out.push(A(`new ${t}(1)`));
   // depth-2 nestings of a 4-value subset
